@@ -183,7 +183,10 @@ class Scenario:
                 others = [i for i in self.c.nodes if i != l]
                 self.c.wait(lambda: self.c.metrics(others[0]).get("leader") in others, 30, "the others elect a leader")
                 self.write(others[0], "k1")
+                first_k1 = next(o["content"] for o in self.ops if o.get("k") == "k1" and o.get("res") == "ok")
                 self.heal()
+                # ... also with the content it still holds for a key the others have moved on from
+                self.write(l, "k1", content=first_k1, timeout_ms=4000)
                 self.write(l, "k2", timeout_ms=4000)
                 self.write(l, "k3", timeout_ms=4000)
             elif self.kind == "follower_echo":
